@@ -1,5 +1,5 @@
 (** C20 — regular-expression matching agrees with SRFI 115: property theorems only. *)
-From ChibiV Require Import C20.Re C20.Proofs C20.FoldIdem C20.SubsNest.
+From ChibiV Require Import C20.Re C20.Proofs C20.FoldIdem C20.SubsNest C20.CsNary.
 From ChibiV Require Import C20.Nfa C20.NfaOrd C20.NfaSem C20.NfaCount C20.NfaBounded C20.NfaThompson C20.NfaRun C20.NfaMain C20.NfaSpan C20.NfaSubsDefs C20.NfaSubs C20.NfaSubsFinal C20.NfaAnyOrder C20.NfaAnyOrderSpan C20.NfaAnyOrderSubs.
 
 (** the derivative of a core expression denotes the left quotient of its language *)
@@ -16,6 +16,25 @@ Print Assumptions desugar_preserves_language.
 Theorem cset_member_iff : forall cs ci c, cs_mem ci cs c = true <-> cs_in ci cs c.
 Proof. exact cs_mem_spec. Qed.
 Print Assumptions cset_member_iff.
+
+(** the n-ary spellings of a class -- (or A B ...) printed flat, ("...") and (/ lo hi ...) -- reach the model as a left-nested union
+    (props/C20.py cs_bin); it denotes "member of some operand" *)
+Theorem charclass_union_members : forall ci c ys x,
+  cs_in ci (cs_union x ys) c <-> exists a, In a (x :: ys) /\ cs_in ci a c.
+Proof. exact cs_union_in. Qed.
+Print Assumptions charclass_union_members.
+
+(** a case-sensitive class of single characters has exactly the listed characters as members, in whatever order they are inserted
+    (what the charclass-tree stream demands of lib/chibi/iset, member by member and neighbour by neighbour) *)
+Theorem charclass_chars_exact_members : forall c ds d, cs_in false (cs_chars c ds) d <-> In d (c :: ds).
+Proof. exact cs_chars_members. Qed.
+Print Assumptions charclass_chars_exact_members.
+
+(** (/ lo hi lo1 hi1 ...) case-sensitively: inside one of the listed ranges *)
+Theorem charclass_ranges_exact_members : forall lo hi rs d,
+  cs_in false (cs_ranges lo hi rs) d <-> exists p, In p ((lo, hi) :: rs) /\ (fst p <= d /\ d <= snd p)%N.
+Proof. exact cs_ranges_members. Qed.
+Print Assumptions charclass_ranges_exact_members.
 
 (** regexp-matches?: the verified matcher accepts exactly the strings of the SPEC language *)
 Theorem matches_iff_in_language : forall r s, matchb r s = true <-> L false r None s None.
